@@ -21,12 +21,19 @@ Nd(op, attrs, ins, outs) == [op |-> op, attrs |-> attrs, ins |-> ins, outs |-> o
 InD(name, dims) == [name |-> name, dt |-> "f32", dims |-> dims]
 
 \* ---- opset import lists: sequences of [domain, version]
-Imp(d, v) == [domain |-> d, version |-> v]
+\* a version is w * 2^31 + version: TLC integers are 32 bits wide, the protobuf field is 64 (w = 0 for every ordinary version)
+Imp(d, v) == [domain |-> d, version |-> v, w |-> 0]
+ImpW(d, w, lo) == [domain |-> d, version |-> lo, w |-> w]
 OpsetLists == {<<>>, <<Imp("", 13)>>, <<Imp("", 12)>>, <<Imp("", 14)>>, <<Imp("", 1)>>, <<Imp("", 13), Imp("ai.onnx.ml", 1)>>,
                <<Imp("ai.onnx.ml", 1)>>, <<Imp("", 13), Imp("", 14)>>, <<Imp("", 11), Imp("", 13)>>, <<Imp("ai.onnx.ml", 13)>>,
-               <<Imp("", 0)>>, <<Imp("", 21)>>, <<Imp("", -13)>>, <<Imp("ai.onnx.ml", 3), Imp("", 13), Imp("com.x", 2)>>}
-MaxVersion(l) == IF l = <<>> THEN 0 ELSE LET vs == {l[i].version : i \in 1..Len(l)} m == CHOOSE x \in vs : \A y \in vs : y <= x IN IF m > 0 THEN m ELSE 0
-OpsetOK(l) == MaxVersion(l) = 13
+               <<Imp("", 0)>>, <<Imp("", 21)>>, <<Imp("", -13)>>, <<Imp("ai.onnx.ml", 3), Imp("", 13), Imp("com.x", 2)>>,
+               \* versions beyond 32 bits: 2^32+13, 13 next to 2^31 / 2^32+5 / 2^33, and very negative ones (below every ordinary version)
+               <<ImpW("", 2, 13)>>, <<Imp("", 13), ImpW("", 1, 0)>>, <<ImpW("", 2, 5), Imp("", 13)>>, <<Imp("", 13), ImpW("com.x", 4, 0)>>,
+               <<ImpW("", 6, 13)>>, <<ImpW("", -2, 13)>>, <<ImpW("", -2, 13), Imp("", 13)>>, <<Imp("", 13), ImpW("", -1, 0)>>, <<ImpW("", 1, 13)>>}
+MaxVersion(l) == LET vs == {l[i].version : i \in {j \in 1..Len(l) : l[j].w = 0}} IN
+                 IF vs = {} THEN 0 ELSE LET m == CHOOSE x \in vs : \A y \in vs : y <= x IN IF m > 0 THEN m ELSE 0
+\* an import at or beyond 2^31 is larger than 13 whatever its low bits; one below -2^31 is smaller than every ordinary version
+OpsetOK(l) == (\A i \in 1..Len(l) : l[i].w <= 0) /\ MaxVersion(l) = 13
 
 \* ---- initializers: good ones and every kind of bad one (from the C12 space), as raw TensorProto descriptions
 RawF32(dims, n) == [code |-> 1, dims |-> dims, enc |-> "raw", field |-> "none", raw |-> [k \in 1..(4 * n) |-> (k * 7) % 251], vals |-> <<>>]
